@@ -6,7 +6,7 @@
 
 use crate::corpus::{self, CorpusItem, CorpusSpec};
 use crate::pan;
-use crate::sinks::{BitModel, Core, FullSink, ReqSink, SimSinkError};
+use crate::sinks::{BitModel, Core, FullSink, ReqSink, SimSinkError, UnitErrSink, UnitSinkError};
 use crate::{Summary, Violation};
 use flacenc::bitsink::{BitSink, ByteSink};
 use flacenc::component::{BitRepr, Frame, FrameHeader, MetadataBlockData, Residual, Stream, StreamInfo, SubFrame};
@@ -61,6 +61,10 @@ pub fn components(item: &CorpusItem) -> Vec<(String, Comp)> {
         "metadata_unknown".into(),
         Comp::Meta(MetadataBlockData::new_unknown(9, &[1, 2, 3, 4, 5, 6, 7]).expect("HARNESS: metadata")),
     ));
+    out.push((
+        "metadata_unknown_empty".into(),
+        Comp::Meta(MetadataBlockData::new_unknown(5, &[]).expect("HARNESS: metadata")),
+    ));
     for n in 0..st.frame_count() {
         let f = st.frame(n).unwrap();
         out.push((format!("frame{n}"), Comp::Frame(f.clone())));
@@ -86,7 +90,7 @@ pub struct Case {
     pub corpus_idx: usize,
     pub spec: CorpusSpec,
     pub component: String,
-    /// "required" or "overridden"
+    /// "required", "overridden" or "required_unit_error"
     pub sink: String,
     pub sticky: bool,
     pub k: usize,
@@ -106,6 +110,15 @@ fn run_on<S: BitSink<Error = SimSinkError>>(comp: &Comp, sink: &mut S) -> Result
     })
 }
 
+/// The same for the sink whose error type carries no payload (the operation index is not known from the error).
+fn run_on_unit(comp: &Comp, sink: &mut UnitErrSink, k: usize) -> Result<Outcome, pan::Caught> {
+    pan::catch(|| match comp.write(sink) {
+        Ok(()) => Outcome::Ok,
+        Err(OutputError::Sink(UnitSinkError)) => Outcome::SinkErr(SimSinkError { k }),
+        Err(e) => Outcome::OtherErr(format!("{e}")),
+    })
+}
+
 fn clean_bits(comp: &Comp) -> (Vec<u8>, usize) {
     let mut s = ByteSink::new();
     comp.write(&mut s).expect("HARNESS: clean write failed");
@@ -119,6 +132,10 @@ pub fn exec_case(comp: &Comp, case: &Case, clean: &BitModel, clean_bytes: &[u8],
     let (res, core) = if case.sink == "required" {
         let mut s = ReqSink(core);
         let r = run_on(comp, &mut s);
+        (r, s.0)
+    } else if case.sink == "required_unit_error" {
+        let mut s = UnitErrSink(core);
+        let r = run_on_unit(comp, &mut s, case.k);
         (r, s.0)
     } else {
         let mut s = FullSink(core);
@@ -197,7 +214,7 @@ pub fn run(ctx: &crate::RunCtx) -> (Summary, Vec<Violation>) {
     let mut sum = Summary::new(
         "corpus item = small emitted stream (every subframe kind / stereo mode / width); its components (stream, stream with precomputed frames, \
          STREAMINFO, unknown metadata, each frame plain and precomputed, frame headers, subframes, residuals) are written to a user sink that fails at \
-         operation k, for EVERY k of the clean write, in 4 flavours (required-only / all-overridden sink x fails-from-k / fails-only-at-k). \
+         operation k, for EVERY k of the clean write, in 6 flavours (required-only / all-overridden / required-only-with-a-zero-sized-error-type sink x fails-from-k / fails-only-at-k). \
          A case = (component, flavour, k); all are distinct; non-trivial = the failure hit a write with at least one accepted operation before it (k > 0).",
     );
     sum.exhaustive = Some(true);
@@ -215,8 +232,8 @@ pub fn run(ctx: &crate::RunCtx) -> (Summary, Vec<Violation>) {
                 // not this property's business (C08); noted as a probe only
                 *sum.probes.entry("count_bits_differs_from_written".into()).or_default() += 1;
             }
-            for sink in ["required", "overridden"] {
-                let n = count_ops(&comp, sink == "required");
+            for sink in ["required", "overridden", "required_unit_error"] {
+                let n = count_ops(&comp, sink != "overridden");
                 for sticky in [true, false] {
                     for k in 0..n {
                         n_case += 1;
@@ -290,7 +307,7 @@ pub fn minimise(case: &serde_json::Value, class: &str, site: &str) -> serde_json
             continue;
         }
         let clean = BitModel::from_bytes(&cb, nbits);
-        let n = count_ops(comp, c0.sink == "required");
+        let n = count_ops(comp, c0.sink != "overridden");
         for k in 0..n {
             let c = Case {
                 component: name.clone(),
